@@ -7,7 +7,9 @@ open Infretis Infretis.Proto Infretis.Readers
 Line protocol of the C13 driver.
 
   xyz  <asIs|repaired> <hex content> <K> <n c₁ … cₙ> × K     polls of the xyz reader model
-  lmp  <hex content> <K> <n c₁ … cₙ> × K                      polls of the lammpstrj reader model
+  lmp  <hex content> <K> <n c₁ … cₙ> × K                      polls of the lammpstrj reader model (code as it is now)
+  lmpv <asIs|repaired> <hex content> <K> …                    the same, variant named (asIs = before fix dfb19e7)
+  rplv <asIs|repaired> <hex content> <K> …                    rpl with the variant named; rpf kind l-asIs likewise
   xspec <m len₁ … len_m> <K> <n c₁ … cₙ> × K                  `exactStages` on frame indices
   lspec <m len₁ … len_m> <K> <n c₁ … cₙ> × K                  `lmpStages` on frame indices
   trrhdr <hex bytes>                                          `trrHeader` (read_trr_header at byte level)
@@ -93,9 +95,17 @@ def handle (toks : List String) : String :=
     match content? h, parseNat? k with
     | some content, some k =>
       match takeSeqs k rest with
-      | some seqs => " # ".intercalate (seqs.map (result lmpReader showL content))
+      | some seqs => " # ".intercalate (seqs.map (result (lmpReader .repaired) showL content))
       | none => "bad-op"
     | _, _ => "bad-op"
+  | "lmpv" :: v :: h :: k :: rest =>
+    let var : Option Variant := if v = "asIs" then some .asIs else if v = "repaired" then some .repaired else none
+    match var, content? h, parseNat? k with
+    | some var, some content, some k =>
+      match takeSeqs k rest with
+      | some seqs => " # ".intercalate (seqs.map (result (lmpReader var) showL content))
+      | none => "bad-op"
+    | _, _, _ => "bad-op"
   | "xspec" :: rest =>
     match takeList parseNat? rest with
     | some (lens, k :: rest) =>
@@ -205,8 +215,14 @@ def handleExt (toks : List String) : Option String :=
   | "rpl" :: h :: k :: rest =>
     match content? h, (parseNat? k).bind (fun k => takeSeqs k rest) with
     | some content, some seqs =>
-      some (" # ".intercalate (seqs.map (fun evs => objResult lmpReaderO showL (visible content (evs.map decEv)))))
+      some (" # ".intercalate (seqs.map (fun evs => objResult (lmpReaderO .repaired) showL (visible content (evs.map decEv)))))
     | _, _ => none
+  | "rplv" :: v :: h :: k :: rest =>
+    let var : Option Variant := if v = "asIs" then some .asIs else if v = "repaired" then some .repaired else none
+    match var, content? h, (parseNat? k).bind (fun k => takeSeqs k rest) with
+    | some var, some content, some seqs =>
+      some (" # ".intercalate (seqs.map (fun evs => objResult (lmpReaderO var) showL (visible content (evs.map decEv)))))
+    | _, _, _ => none
   | "xspecp" :: rest =>
     match takeList parseNat? rest with
     | some (lens, k :: rest) =>
@@ -227,7 +243,8 @@ def handleExt (toks : List String) : Option String :=
       if files.length ≠ n then none
       else if kind = "x-asIs" then some (objResult (xyzReaderO .asIs) showX files)
       else if kind = "x-repaired" then some (objResult (xyzReaderO .repaired) showX files)
-      else if kind = "l" then some (objResult lmpReaderO showL files)
+      else if kind = "l" then some (objResult (lmpReaderO .repaired) showL files)
+      else if kind = "l-asIs" then some (objResult (lmpReaderO .asIs) showL files)
       else none
     | _, _ => none
   | ["trrdata", h] =>
